@@ -96,7 +96,9 @@ pub fn run(stim: &Value, rec: &Rec) {
             // gae: the caller's own grpc-accept-encoding, if it sends one
             if let Some(a) = stim["gae"].as_str() { if a != "none" { b = b.header("grpc-accept-encoding", a); } }
             let (body, _) = script_body(&stim["chunks_req"], None);
-            let req = b.body(Body::new(body)).unwrap();
+            // honest_eos: the request body says so as soon as it has handed out its last chunk (a body with a known length, or HTTP/2
+            // END_STREAM on the last DATA frame) instead of leaving its end to be found by one more poll
+            let req = if stim["honest_eos"].as_bool().unwrap_or(false) { b.body(Body::new(HonestEos(body))).unwrap() } else { b.body(Body::new(body)).unwrap() };
             let resp = block_on(async { ServiceExt::<http::Request<Body>>::ready(&mut svc).await.unwrap().call(req).await }).unwrap();
             let (p, body) = resp.into_parts();
             rec.ev(json!({"e":"resp","status":p.status.as_u16(),"list":headers_json(&p.headers)}));
@@ -132,6 +134,13 @@ pub fn run(stim: &Value, rec: &Rec) {
         }
         k => panic!("web lab: unknown kind {k}"),
     }
+}
+/// a scripted body that reports its end honestly
+struct HonestEos(ScriptBody);
+impl http_body::Body for HonestEos {
+    type Data = bytes::Bytes; type Error = tonic::Status;
+    fn poll_frame(mut self: Pin<&mut Self>, cx: &mut Context<'_>) -> Poll<Option<Result<http_body::Frame<bytes::Bytes>, tonic::Status>>> { Pin::new(&mut self.0).poll_frame(cx) }
+    fn is_end_stream(&self) -> bool { self.0.items.is_empty() }
 }
 /// forwards to a ScriptBody and publishes its polls-after-end counter
 struct Counted { inner: ScriptBody, cnt: Arc<AtomicUsize>, out: Arc<AtomicUsize>, seg: usize }
